@@ -250,6 +250,10 @@ func (c *tracingHTTP2Conn) closeStreamLocked(streamID uint32, stream *http2Strea
 	}
 	if isRequest {
 		stream.requestTracer.emitUnfinished()
+		if err != nil {
+			// The operation is over: also flush what was seen of the response.
+			stream.responseTracer.emitUnfinished()
+		}
 		stream.builder.add(&RequestBodyEnd{Err: err})
 	} else if stream.responseTracer.builder != nil || err != nil {
 		// (an error, i.e. a reset, ends the operation even if no response headers were seen)
@@ -285,6 +289,7 @@ func (c *tracingHTTP2Conn) cancelAll(err error) {
 				// TODO: We shouldn't add RequestBodyEnd event if the trace
 				//       already has an event of that type.
 				stream.requestTracer.emitUnfinished()
+				stream.responseTracer.emitUnfinished()
 				stream.builder.add(&RequestBodyEnd{Err: err})
 				stream.builder.add(&RequestCanceled{})
 			}
